@@ -124,6 +124,17 @@ def is_expr(v):
         "field", "ctx", "const", "not", "isnone", "eq", "and", "or", "if", "raise")
 
 
+def is_json_expr(e):
+    """built from record fields and literals only (so its value is a JSON value)"""
+    t = e[0]
+    if t in ("field", "const"):
+        return True
+    if t in ("ctx", "raise"):
+        return False
+    return all(is_json_expr(x) for x in e[1:] if isinstance(x, tuple) and x and isinstance(x[0], str)
+               and x[0] in ("field", "ctx", "const", "not", "isnone", "eq", "and", "or", "if", "raise"))
+
+
 def ascii_clip(s, n=90):
     s = " ".join(str(s).split())
     s = "".join(c if 32 <= ord(c) < 127 else "?" for c in s)
@@ -139,9 +150,10 @@ def mk_not(e):
 
 
 def mk_and(a, b):
+    # only used for guards, where only the truthiness of the result matters
     if a == TRUE:
         return b
-    if b == TRUE and False:
+    if b == TRUE:
         return a
     return ("and", a, b)
 
@@ -157,6 +169,15 @@ def mk_if(c, a, b):
         return ("if", c, a, b)
     if isinstance(a, DictSym) and isinstance(b, DictSym):
         return merge_dicts(c, a, b)
+    # `if c: raise ...` in front of a dict result: the first rule's guard raises when c holds
+    if a == RAISE and isinstance(b, DictSym) and b.entries:
+        d = b.copy()
+        d.entries[0][1] = ("if", c, RAISE, d.entries[0][1])
+        return d
+    if b == RAISE and isinstance(a, DictSym) and a.entries:
+        d = a.copy()
+        d.entries[0][1] = ("if", c, d.entries[0][1], RAISE)
+        return d
     return Cond(c, a, b)
 
 
@@ -741,7 +762,7 @@ class SymExec:
             if name == "isinstance" and len(node.args) == 2:
                 o, c = ev(node.args[0]), ev(node.args[1])
                 if isinstance(c, ClassRef) and c.cls not in JSON_TYPES:
-                    if is_expr(o) and o[0] in ("field", "const"):
+                    if is_expr(o) and is_json_expr(o):
                         self.note(f"isinstance(<record field>, {c.cls.__name__}) is False: record fields hold JSON values")
                         return FALSE
                     if isinstance(o, Obj):
@@ -749,6 +770,8 @@ class SymExec:
                 return self.ctx(node)
             if name in self.PURE_IDENTITY_CALLS and len(node.args) == 1:
                 return ev(node.args[0])
+            if name == "cast" and len(node.args) == 2:      # typing.cast
+                return ev(node.args[1])
             if name in g and inspect.isclass(g[name]):
                 args = [ev(a) for a in node.args]
                 kw = {}
